@@ -456,6 +456,18 @@ func (r *rateLimiter) getLimitStore(upstream string) _interface.LimitStore {
 	return r.getLimitStoreForShard(shardId)
 }
 
+// allLimitStores returns a snapshot of the shard stores: the map is written by startLeading/stopLeading
+// while the periodic cleanups iterate over it.
+func (r *rateLimiter) allLimitStores() []_interface.LimitStore {
+	r.limitStoreLock.RLock()
+	defer r.limitStoreLock.RUnlock()
+	stores := make([]_interface.LimitStore, 0, len(r.limitStoreMap))
+	for _, limitStore := range r.limitStoreMap {
+		stores = append(stores, limitStore)
+	}
+	return stores
+}
+
 func (r *rateLimiter) getLimitStoreForShard(shardId int) _interface.LimitStore {
 	r.limitStoreLock.RLock()
 	defer r.limitStoreLock.RUnlock()
@@ -555,7 +567,7 @@ func (r *rateLimiter) cleanupTimeoutClient() {
 			instance := c
 			reason := fmt.Sprintf("instance %s last heartbeat since %v", instance, lastHeartbeat.Format(time.RFC3339Nano))
 			go func() {
-				for _, limitStore := range r.limitStoreMap {
+				for _, limitStore := range r.allLimitStores() {
 					conditions := limitStore.List(labels.Set{RateLimitConditionInstanceLabel: instance}.AsSelector())
 					for _, condition := range conditions {
 						r.deleteCondition(limitStore, condition, reason)
@@ -592,7 +604,7 @@ func (r *rateLimiter) cleanupUnknownCondition() {
 	// clean up when client not found
 	clientsToDelete := map[string]bool{}
 	upstreamsToDelete := map[string]bool{}
-	for _, limitStore := range r.limitStoreMap {
+	for _, limitStore := range r.allLimitStores() {
 		conditions := limitStore.List(labels.Everything())
 		for _, condition := range conditions {
 			if expectClients[condition.Spec.Instance] {
@@ -611,13 +623,13 @@ func (r *rateLimiter) cleanupUnknownCondition() {
 	}
 
 	for instance, _ := range clientsToDelete {
-		for _, limitStore := range r.limitStoreMap {
+		for _, limitStore := range r.allLimitStores() {
 			r.deleteGlobalFlowControl(limitStore, instance, fmt.Sprintf("client %s not exist", instance))
 		}
 	}
 
 	for upstream, _ := range upstreamsToDelete {
-		for _, limitStore := range r.limitStoreMap {
+		for _, limitStore := range r.allLimitStores() {
 			err := limitStore.DeleteUpstream(upstream)
 			if err != nil {
 				klog.Errorf("Delete upstream %v condition err: %v", upstream, err)
